@@ -542,7 +542,7 @@ def run_sessions(ck, sq, Event, histories):
     pending, wire = [], []
     seen = ck.__dict__.setdefault("_reported_signatures", set())
     import time
-    started, budget = time.time(), (900 if ck.tier == "quick" else 7200)
+    started, budget = time.time(), (420 if ck.tier == "quick" else 7200)
     for h4 in histories:
         name, lazy, h = h4[:3]
         if time.time() - started > budget:
